@@ -26,6 +26,9 @@ CHECKS = {
  "C06": ("Exhaustive enumeration of invocation states: every sequence of 1..2 (quick) / 1..3 (thorough) rules files over six kinds x every sequence of data files over four kinds x sixteen invocation modes (plain, verbose, print-json, structured json/yaml/junit/sarif, payload, stdin, directories, missing paths), and for `test` every pair of test-file kinds x rules kinds x formats x layouts; each state is executed through CfnGuard::execute in-process and a fixed fraction as a real child process of the repository's main.rs; the exit status must lie in the closed-form allowed set transcribed from the property.",
          "Trusted base: the closed-form allowed_exit function; the in-process seam (same code path as main.rs minus process::exit) cross-checked against the real binary on every 23rd (quick) / 4th (thorough) state.",
          "exhaustive enumeration of file-kind sequences x invocation modes against a closed-form exit-code reference"),
+ "C09": ("Exhaustive exploration of (1..3 rules files with distinct rule names and a unique custom message on every clause, document) states: validate --structured -o json is executed in-process and the report is checked to partition the evaluated rule names by the statuses of the library's verbose record, to fold the file status from the partition, to equal the union of the single-file reports, and to list only checks whose message belongs to a FAILed check of that same rule; exit code checked against the file status.",
+         "Trusted base: the JSON report extractor, the record walker collecting failed-check messages, the library record as the per-rule status baseline. Completeness of the list of checks is not required by the property and not checked.",
+         "exhaustive enumeration of programs x documents x file combinations; report compared with the evaluation record"),
 }
 PENDING_REASON = "check under construction in this round (design in DESIGN.md section 5); not claimed until its quick tier runs clean on the unchanged tree"
 ALL = ["C%02d" % i for i in range(1, 20)]
